@@ -266,7 +266,7 @@ func (c *Ctx) sitesDepth(fn *ssa.Function, depth int, onStack map[*ssa.Function]
 			for _, cj := range sub.cond.cs {
 				var n conj
 				for _, l := range cj {
-					n = append(n, l[:1]+c.substParams(fn, ci, l[1:]))
+					n = append(n, normLit(l[:1]+c.substParams(fn, ci, l[1:])))
 				}
 				sort.Strings(n)
 				sc.cs = append(sc.cs, n)
@@ -547,4 +547,59 @@ func foldConstOperands(ws *writeSite) {
 			ws.args = append(append([]ssa.Value{}, ws.args[:i]...), ws.args[i+1:]...)
 		}
 	}
+}
+
+// flatReturn is one way a function can return, in its own namespace: a return of the function
+// itself, or — for `return helper(sb, ...)` where helper is a writer helper — each return of
+// the helper, with values and condition rewritten through the call.
+type flatReturn struct {
+	ret   *ssa.Return
+	terms []string
+	cond  dnf
+}
+
+func (c *Ctx) flatReturns(fn *ssa.Function) []flatReturn {
+	return c.flatReturnsDepth(fn, 0)
+}
+
+func (c *Ctx) flatReturnsDepth(fn *ssa.Function, depth int) []flatReturn {
+	pc := c.PC(fn)
+	var out []flatReturn
+	for _, r := range returnsOf(fn) {
+		cond := pc.canonOf(pc.At(r.Block()))
+		if cond.unknown {
+			cond = mkDNF(pc.Must(r.Block()))
+		}
+		if len(r.Results) == 1 && depth < inlineDepth {
+			if call, ok := r.Results[0].(*ssa.Call); ok {
+				g := callee(call)
+				if g != nil && g != fn && c.W.InRepo(g) && len(g.Blocks) > 0 && c.isWriterHelper(g) && call.Block() == r.Block() {
+					for _, sub := range c.flatReturnsDepth(g, depth+1) {
+						fr := flatReturn{ret: r}
+						for _, t := range sub.terms {
+							fr.terms = append(fr.terms, c.substParams(fn, call, t))
+						}
+						sc := dnf{unknown: sub.cond.unknown}
+						for _, cj := range sub.cond.cs {
+							var n conj
+							for _, l := range cj {
+								n = append(n, normLit(l[:1]+c.substParams(fn, call, l[1:])))
+							}
+							sort.Strings(n)
+							sc.cs = append(sc.cs, n)
+						}
+						fr.cond = andDNF(cond, sc)
+						out = append(out, fr)
+					}
+					continue
+				}
+			}
+		}
+		fr := flatReturn{ret: r, cond: cond}
+		for _, v := range r.Results {
+			fr.terms = append(fr.terms, c.term(fn, v))
+		}
+		out = append(out, fr)
+	}
+	return out
 }
